@@ -60,6 +60,16 @@ class Compiled:
 def build_objects(d, mode):
     from teaal.parse import Einsum, Mapping, Architecture, Bindings, Format
     d = copy.deepcopy(d)
+    # YAML anchors/aliases: "_alias": [[source path, destination path], ...] makes the destination THE SAME OBJECT as the source
+    # (what `&a` / `*a` produce when the text is loaded); kept as paths so that a specification survives JSON (records, replays)
+    for src, dst in d.pop("_alias", None) or []:
+        obj = d
+        for k in src:
+            obj = obj[k]
+        par = d
+        for k in dst[:-1]:
+            par = par[k]
+        par[dst[-1]] = obj
     if "mapping" not in d or d["mapping"] is None:
         d["mapping"] = {}
     if mode == "plain":
